@@ -199,7 +199,40 @@ def r20_2(ctx):
     ctx.ob("R20.2", "add_attrs_if_missing-filters-by-name", "contains(a1.name)" in txt and ".extend" in txt, "new attributes are filtered by the set of existing *names* and appended (nothing is overwritten)")
 
 
+ORDER_BREAKING = ("swap_remove", "swap", "reverse", "sort", "sort_by", "sort_by_key", "sort_unstable", "sort_unstable_by", "sort_unstable_by_key", "rotate_left", "rotate_right",
+                  "dedup", "dedup_by", "dedup_by_key", "swap_remove_back", "swap_remove_front", "select_nth_unstable")
+
+
+def r20_5(ctx):
+    """children order: the vectors of RcDom are mutated only by order-preserving operations; reparenting appends"""
+    n = 0
+    for f in ctx.mir.by_crate["markup5ever_rcdom"]:
+        for bb, c, t in f.calls():
+            if c is None:
+                continue
+            p = c["path"]
+            if not ("Vec::<" in p or "VecDeque::<" in p or "slice::<impl [T]>" in p):
+                continue
+            m = p.rsplit("::", 1)[-1]
+            if m in ("iter", "len", "last", "first", "is_empty", "new", "with_capacity", "reserve", "get", "iter_mut"):
+                continue
+            n += 1
+            fname = f.name if f.d["kind"] != "Closure" else f.d.get("closure_of", "").rsplit("::", 1)[-1]
+            ok = m not in ORDER_BREAKING
+            ctx.ob("R20.5", "vector-op-keeps-order/%s/%s" % (fname, m), ok, "%s keeps the relative order of the remaining elements" % m if ok else
+                   "%s calls %s on a node vector: the order of the other children changes, so the tree no longer lists them in document order" % (fname, p), f.where(bb))
+    ctx.floor("R20.5", "vector-mutations", n, 8)
+    key, pcs = nfq.cells(ctx, AREA, "::reparent_children")
+    texts = [t for pc in nfq.feasible(pcs) for t in nfq.texts(pc)]
+    appends = [t for t in texts if re.search(r"p2\.children(\.borrow_mut\(\))?\.(extend|append)\(", t)]
+    replaces = [t for t in texts if re.search(r"(assign|set) p2\.children|p2\.children\.(replace|set|swap)\(|p2\.children(\.borrow_mut\(\))?\.(clear|truncate|drain)\(", t)]
+    ctx.ob("R20.5", "reparent-appends", bool(appends) and not replaces, "the moved children are appended to the new parent's existing children" if appends and not replaces else
+           "reparent_children does not append to the new parent's child list (%s): children it already had are lost or reordered" % (replaces[:1] or "no extend/append found"), "markup5ever_rcdom reparent_children")
+
+
 def run(ctx):
+    ctx.rule("R20.5", "child vectors are changed only by order-preserving operations; reparent_children appends to the new parent")
+    ctx.guard("R20.5", "order", lambda: r20_5(ctx))
     ctx.rule("R20.1", "every function that mutates a children vector writes the parent link of the affected children; a clone does not inherit the original's parent link")
     ctx.rule("R20.2", "text merging precedes Text-node creation; add_attrs_if_missing filters by existing names and never overwrites")
     ctx.rule("R20.3", "in a find-first loop the condition guarding `result = Some(candidate)` depends on the candidate")
